@@ -432,6 +432,11 @@ class AddressType(OctetStringType):
                                         "correspond to a valid IPv6 address "\
                                         "format")
 
+            else:
+                raise DataTypeError("Stream of bytes does not start with "\
+                                    "the address family of either an IPv4 "\
+                                    "or an IPv6 address")
+
         else:
             ip_address = ipaddress.ip_address(data)
     
